@@ -117,6 +117,17 @@ CHECKS = [
         "note": "trusted: the compliance predicate expected() in c12.py; initializer alphabet is finite per type",
     },
     {
+        "property_id": "C15",
+        "level": "exploration",
+        "design_ref": "DESIGN.md 4/C15",
+        "technique": "exhaustive enumeration of (directory layout, file name, designation of targets/roots, working directory) configurations materialised on a scratch file system, identity compared with a pure function of the path",
+        "text": "Every namespace depth 0..2 (incl. a sub-namespace named like the root), short name, version, present/absent port-ID x 12 ways of designating "
+        "targets and roots to read_files and 5 to read_namespace (absolute, relative, bare name, inferred, symlink, '..', two roots in both orders, "
+        "str vs Path) x two working directories, plus 70 well- and ill-formed file names: the outcome is the identity encoded in the path or an "
+        "InvalidDefinitionError, never another identity; documented designations must work; ill-formed names must be rejected.",
+        "note": "trusted: expected_from_name() and the expected identity computed from the generated layout; leading zeros are not treated as ill-formed",
+    },
+    {
         "property_id": "C16",
         "level": "exploration",
         "design_ref": "DESIGN.md 4/C16",
